@@ -98,6 +98,26 @@ CHECKS['C09'] = dict(
          'normalize-unicode, collations other than code point, libxml2 agreement, INF/NaN arguments beyond constant cases.',
     technique='CrossHair/z3 symbolic execution on symbolic strings + AST->z3 translation of substring index arithmetic (unsat for all rationals)',
     design='DESIGN.md §4 C09')
+CHECKS['C15'] = dict(
+    text='array:get/subarray/remove/insert-before/put/append/reverse/join/flatten/head/tail/size, the ? and () lookups, map:put/get/'
+         'size/remove/contains/keys/entry/merge(use-first,use-last) are executed symbolically through token.evaluate with members, '
+         'values and every index/length argument as solver variables (indices over all integers where the case split is finite) and '
+         'compared with the Python list/dict model, with FOAY0001/FOAY0002 exactly outside the bounds, and with the operand re-read '
+         'after each call to show it is unchanged.',
+    note='Trusted: CrossHair int/list/dict models. Map keys restricted to small integer ranges (hashing a symbolic key realises it). '
+         'Out: nested maps/arrays, NaN/mixed-type key identity, combine/reject merge policies, node and function members.',
+    technique='SMT-based symbolic execution (CrossHair/z3) of map:/array: templates vs list/dict model; operand-unchanged re-read',
+    design='DESIGN.md §4 C15')
+CHECKS['C16'] = dict(
+    text='Enumerated function-item programs (closures created in for/let and called later, twice and in reverse order; two closures '
+         'from one function expression; a closure surviving a later re-binding; named references; partial application; nested and '
+         'higher-order calls; fold-left/right, for-each, filter, for-each-pair, apply, sort with key and its stability) are executed '
+         'symbolically with captured values, arguments and sequences of <= 3 unbounded integers and compared with the direct-call '
+         'expansion computed in Python.',
+    note='Trusted: CrossHair int/list models. Programs are enumerated, values symbolic. Out: collations in sort, recursion through '
+         'named user functions, function items crossing parser instances.',
+    technique='SMT-based symbolic execution (CrossHair/z3) of enumerated function-item programs vs direct-call expansion',
+    design='DESIGN.md §4 C16')
 NOT_APPLICABLE = {
     'C04': 'Quantifies over program syntax and hash seeds: no value domain to make symbolic; symbolic source text does not get through '
            'the tokenizer regex under CrossHair (600 CPU-s, len<=2, no verdict); a table-level z3 check would verify a model of the '
